@@ -144,13 +144,13 @@ fn q_grid(n: usize) -> Vec<f64> {
 fn prop_ns(tier: Tier) -> Vec<usize> {
     match tier {
         Tier::Quick => vec![40, 50, 64, 100, 128, 200, 400, 500, 1000],
-        Tier::Thorough => vec![40, 45, 50, 64, 75, 100, 128, 150, 200, 300, 400, 500, 750, 1000, 1500, 2000, 3000, 4000],
+        Tier::Thorough => (40..=160).chain([175, 200, 225, 250, 300, 350, 400, 450, 500, 600, 750, 1000, 1250, 1500, 2000, 2500, 3000, 4000, 5000, 6000]).collect(),
     }
 }
 fn quant_ns(tier: Tier) -> Vec<usize> {
     match tier {
         Tier::Quick => vec![30, 50, 100, 200, 500, 1000],
-        Tier::Thorough => vec![30, 40, 50, 75, 100, 150, 200, 300, 500, 750, 1000, 2000, 3000],
+        Tier::Thorough => (30..=120).chain([135, 150, 175, 200, 250, 300, 400, 500, 750, 1000, 1500, 2000, 3000, 4000, 5000]).collect(),
     }
 }
 
@@ -257,6 +257,17 @@ fn judge_quant(n: usize, s: &mut Sink) {
             }
             let mean = kahan_sum(&devs) / devs.len() as f64;
             s.outcome(&("quant", n, kind, (mean * 1e6) as i64));
+            // n-specific form: the mean coverage of the Wilson-rank method itself at this n
+            // (from the oracle's own ranks); the implementation's may differ by 0.002 at most
+            let odevs: Vec<f64> = grid.iter().zip(&pmfs).map(|(q, pmf)| oracle_ranks(n, *q, kind, level).map(|r| rank_coverage(r, pmf)).unwrap_or(0.0) - level).collect();
+            let omean = kahan_sum(&odevs) / odevs.len() as f64;
+            if !((mean - omean).abs() <= 0.002) {
+                s.violation(
+                    format!("quantile/average-coverage-differs-from-method-at-n/{}/{}", kind.name(), level),
+                    format!("n={n} {} {level}: mean coverage over q is {:.5}, the Wilson-rank method gives {:.5}", kind.name(), level + mean, level + omean),
+                    case.clone(),
+                );
+            }
             if n >= 100 {
                 let lim = QUANT_AVG[kidx(kind)] / (n as f64).sqrt();
                 s.max(&format!("quant_avg_dev_over_slack[{}]", kind.name()), mean.abs() / lim, || format!("n={n} L={level}"));
